@@ -195,3 +195,49 @@ func VerifC17_Twin() {
 	verifC17Event(1, 1, false)
 	verifAssert(false, "twin-false")
 }
+
+// VerifC17_RelayPrefix: only counters whose name starts with "statsd." (gostatsd's own internal
+// counters) are left out by the relay; a counter that merely starts with the same letters is a
+// user's series and is relayed exactly once, as are gauges of any name.
+func VerifC17_RelayPrefix() {
+	names := []string{"statsd", "statsd_x", "statsdx.y", "statsd-p", "statsd.y", "xstatsd.y", "stats.d"}
+	name := names[nondetIntIn(0, len(names)-1)]
+	mm := gostatsd.NewMetricMap(false)
+	mm.Counters[name] = map[string]gostatsd.Counter{"": {Value: 7}}
+	mm.Gauges["statsd.g"] = map[string]gostatsd.Gauge{"": {Value: 1.5}}
+	c := &Client{packetSize: 1500}
+	c.sender.BufPool = sync.Pool{New: func() interface{} { return &bytes.Buffer{} }}
+	var out []byte
+	c.processMetrics(mm, func(buf *bytes.Buffer) (*bytes.Buffer, bool) {
+		out = append(out, buf.Bytes()...)
+		return &bytes.Buffer{}, false
+	})
+	wantCounter := 1
+	if len(name) >= 7 && name[:7] == "statsd." {
+		wantCounter = 0
+	}
+	counters, gauges := 0, 0
+	l := &lexer.Lexer{MetricPool: pool.NewMetricPool(0)}
+	for len(out) > 0 {
+		idx := bytes.IndexByte(out, '\n')
+		if idx < 0 {
+			break
+		}
+		line := append([]byte{}, out[:idx]...)
+		out = out[idx+1:]
+		m, _, err := l.Run(line, "")
+		verifAssert(err == nil && m != nil, "a relayed line parses back as a metric")
+		if err != nil || m == nil {
+			return
+		}
+		if m.Type == gostatsd.COUNTER {
+			counters++
+			verifAssert(m.Name == name && m.Value == 7, "relayed counter: name and total")
+		} else {
+			gauges++
+		}
+	}
+	verifAssert(counters == wantCounter, "a counter is left out by the relay exactly when its name starts with \"statsd.\"")
+	verifAssert(gauges == 1, "gauges are relayed whatever their name")
+	verifReach("prefix")
+}
